@@ -126,6 +126,41 @@ def check(tier, seed, replay=None):
                     chk.violation({'engine': 'rest', 'what': 'files outside the data folder were created, modified or deleted through collection names: %s %s' % (sorted(changed)[:5], escaped[:1]),
                                    'signature': 'rest:C19:outside'})
                     nviol += 1
+                # ---- many create requests at the same moment, acceptable and forbidden names mixed: whatever the handlers share
+                # between requests, a forbidden name must never reach the file system
+                if nviol == 0:
+                    import threading
+                    before3 = srv.tree()
+                    bad_status = []
+                    for rnd in range(12):
+                        names3 = ['ok%d_%d' % (rnd, k) for k in range(6)] + ['../escaped_%d_%d' % (rnd, k) for k in range(6)]
+                        rng.shuffle(names3)
+                        gate = threading.Event()
+
+                        def one(nm):
+                            gate.wait()
+                            st, _ = srv.request('POST', '/api/v1/collections', {'name': nm, 'distance_function': 'euclidean', 'vector_size': 2, 'quantization': 64})
+                            if nm.startswith('..') and st not in (400, 'dropped'):
+                                bad_status.append((nm, st))
+                        ts = [threading.Thread(target=one, args=(nm,)) for nm in names3]
+                        for t in ts:
+                            t.start()
+                        gate.set()
+                        for t in ts:
+                            t.join()
+                        stats['server_requests'] += len(names3)
+                        for nm in names3:
+                            if not nm.startswith('..'):
+                                srv.request('DELETE', '/api/v1/collections/%s' % nm)
+                        if srv.tree() != before3 or bad_status:
+                            break
+                    now3 = srv.tree()
+                    changed3 = sorted(k for k in set(before3) | set(now3) if before3.get(k) != now3.get(k))
+                    stats['concurrent_create_rounds'] = rnd + 1
+                    if changed3 or bad_status:
+                        chk.violation({'engine': 'rest', 'what': 'concurrent create requests with acceptable and forbidden names: files outside the data folder changed %s; forbidden names answered %s' % (changed3[:4], bad_status[:3]),
+                                       'signature': 'rest:C19:concurrent-create'})
+                        nviol += 1
                 # ---- a data folder that was copied elsewhere: the files carry the path they were created under; every
                 # operation of the server started on the copy must stay inside the copy
                 if nviol == 0:
